@@ -7,8 +7,9 @@ import Deb822Verif.Model.RelLex
   returns a `PR`: the nodes it appended to the *current* builder branch, the errors it pushed, and
   the tokens left. `start_node(k) … finish_node()` is `PR.wrap k`; sequencing is `PR.andThen`.
 
-  Line numbers are those of commit afa5e0c; fix 3b0cae0 (epoch versions) inserted nine lines at 221, so
-  everything after `versionTok` is nine lines further down in the current file.
+  Line numbers are those of commit afa5e0c; fix 3b0cae0 (epoch versions) inserted nine lines at 221 and
+  fix 4ba50b0 (colons in the upstream part: the `if` became a `while`) two more, so everything after
+  `versionTok` is eleven lines further down in the current file.
 
   Error messages are modelled as strings (exact, except the `{:?}` of a `(kind, text)` pair in
   `parse_entry`, whose text is not Rust-escaped here); only their number is observable.
@@ -216,21 +217,37 @@ theorem constraintLoop_ok (ts) : (constraintLoop ts).Ok ts := by
     simp only [Ok] at ih
     unfold constraintLoop; split <;> simp [Ok, ih]
 
-/-- relations.rs:219-232 (after fix 3b0cae0): the version is `IDENT`, or `IDENT COLON IDENT` when it
-    has an epoch; a COLON not followed by IDENT is an error -/
+/-- relations.rs:224-231 (after fix 4ba50b0, colons in the upstream part): the loop
+    `while current() == Some(COLON) { bump(); if current() == Some(IDENT) { bump() } else { error("Expected version") } }`
+    — two tokens per round (the COLON and whatever `bump`/`error` takes after it), so the recursion is
+    structural on the token list. `[c]` with a COLON: `error` on an empty token list leaves an empty
+    ERROR node and the loop ends. -/
+def versionLoop : List Tok → PR
+  | [] => ⟨[], [], []⟩
+  | [c] =>
+    if c.1 = .COLON then ⟨[tk c, Node.node .ERROR []], ["Expected version"], []⟩ else ⟨[], [], [c]⟩
+  | c :: t :: ts =>
+    if c.1 = .COLON then
+      if t.1 = .IDENT then
+        ⟨tk c :: tk t :: (versionLoop ts).nodes, (versionLoop ts).errs, (versionLoop ts).rest⟩
+      else
+        ⟨tk c :: Node.node .ERROR [tk t] :: (versionLoop ts).nodes,
+          "Expected version" :: (versionLoop ts).errs, (versionLoop ts).rest⟩
+    else ⟨[], [], c :: t :: ts⟩
+
+theorem versionLoop_ok (ts) : (versionLoop ts).Ok ts := by
+  fun_induction versionLoop ts <;> simp only [Ok] at * <;> simp <;> assumption
+
+/-- relations.rs:219-235 (after fixes 3b0cae0, 4ba50b0): the version is `IDENT (COLON IDENT)*` — one
+    IDENT, or with an epoch `IDENT COLON IDENT`, and further `COLON IDENT` for every colon of the
+    upstream part; a COLON not followed by IDENT is an error -/
 def versionTok (ts : List Tok) : PR :=
-  if cur ts = some .IDENT then
-    (bump1 ts).andThen fun ts =>
-      if cur ts = some .COLON then (bump1 ts).andThen (expect .IDENT "Expected version")
-      else PR.nil ts
+  if cur ts = some .IDENT then (bump1 ts).andThen versionLoop
   else errorTok "Expected version" ts
 
 theorem versionTok_ok (ts) : (versionTok ts).Ok ts := by
   unfold versionTok; split
-  · refine ok_andThen (bump1_ok _) fun x => ?_
-    split
-    · exact ok_andThen (bump1_ok _) (expect_ok _ _)
-    · exact ok_nil x
+  · exact ok_andThen (bump1_ok _) versionLoop_ok
   · exact errorTok_ok _ ts
 
 /-- relations.rs:205-247 (after fix 23e6f67: `skip_ws()` before the closing `)`) -/
